@@ -404,4 +404,36 @@ theorem binaryCompute_spec (op : α → α → α) (l r : Val α) (S : List Nat)
       obtain ⟨res, h1, h2, h3, h4⟩ := binaryCompute_arr_arr op l r S hl.1 hl.2 hr.1 hr.2
       exact ⟨.arr res, h1, ⟨h2, h3⟩, rfl, h4⟩
 
+/-! ### expression trees -/
+
+theorem evalWith_spec (opf : ω → α → α → α) (get : κ → Except Err (Val α))
+    (pt : κ → List Nat → α) (S : List Nat) :
+    ∀ (e : Expr κ ω α),
+    (∀ k ∈ e.fromIds, ∃ v, get k = .ok v ∧ v.OkS S ∧ ∀ idx, InB idx S → v.get idx = pt k idx) →
+    ∃ res, e.evalWith opf get = .ok res ∧ res.OkS S ∧
+      (∀ idx, InB idx S → res.get idx = e.evalPtT opf (fun k => pt k idx)) ∧
+      ((∀ k ∈ e.fromIds, ∀ v, get k = .ok v → v.isArr = true) → e.fromIds ≠ [] → res.isArr = true)
+  | .const c, _ => ⟨.scalar c, rfl, trivial, fun _ _ => rfl, fun _ h => absurd rfl h⟩
+  | .cid k, h => by
+    obtain ⟨v, hv, hok, hval⟩ := h k (by simp [Expr.fromIds])
+    exact ⟨v, hv, hok, hval, fun ha _ => ha k (by simp [Expr.fromIds]) v hv⟩
+  | .bin o l r, h => by
+    obtain ⟨a, ha, haok, haval, haarr⟩ := evalWith_spec opf get pt S l
+      (fun k hk => h k (by simp [Expr.fromIds, hk]))
+    obtain ⟨b, hb, hbok, hbval, hbarr⟩ := evalWith_spec opf get pt S r
+      (fun k hk => h k (by simp [Expr.fromIds, hk]))
+    obtain ⟨res, hres, hresok, hresarr, hresval⟩ := binaryCompute_spec (opf o) a b S haok hbok
+    refine ⟨res, ?_, hresok, ?_, ?_⟩
+    · simp only [Expr.evalWith, ha, hb, hres]
+    · intro idx hi
+      rw [hresval idx hi, haval idx hi, hbval idx hi]
+      rfl
+    · intro hall hne
+      rw [hresarr]
+      by_cases hl : l.fromIds = []
+      · have hr : r.fromIds ≠ [] := by
+          intro hr; apply hne; simp [Expr.fromIds, hl, hr]
+        rw [hbarr (fun k hk => hall k (by simp [Expr.fromIds, hk])) hr]; simp
+      · rw [haarr (fun k hk => hall k (by simp [Expr.fromIds, hk])) hl]; simp
+
 end GlueVerif.Derived
